@@ -130,11 +130,15 @@ def gen_values(rng, schema, nrows, extreme_codes=False, npout=None):
     return vals
 
 
-def _arrays(np, schema, vals):
+def _arrays(np, schema, vals, big_endian=False):
     out = {}
     for name, (dt, nc) in schema.items():
         a = np.array(vals[name], dtype=dt)
-        out[name] = a[:, 0].copy() if nc == 1 else a
+        a = a[:, 0].copy() if nc == 1 else a
+        if big_endian:
+            # the same values stored in non-native byte order (ASDF records `byteorder: big` and hands back a >-dtype array)
+            a = a.astype(a.dtype.newbyteorder('>'))
+        out[name] = a
     return out
 
 
@@ -171,7 +175,7 @@ def write_catalog(root, spec):
     if spec.get('lc'):
         d = os.path.join(root, 'halo_light_cones', SIM, 'z0.500')
         os.makedirs(d, exist_ok=True)
-        data = _arrays(np, lc_schema(), spec['halo'])
+        data = _arrays(np, lc_schema(), spec['halo'], spec.get('big_endian'))
         asdf.AsdfFile({'data': data, 'header': header(box, zkms, {'Redshift': 0.5})}).write_to(
             os.path.join(d, 'lc_halo_info.asdf'))
         # the loader opens this file for every light-cone catalog, subsamples requested or not
@@ -192,12 +196,12 @@ def write_catalog(root, spec):
     for k, n in enumerate(splits):
         part = slice_rows(spec, list(range(lo, lo + n)))
         lo += n
-        data = _arrays(np, raw_schema(), part['halo'])
+        data = _arrays(np, raw_schema(), part['halo'], spec.get('big_endian'))
         asdf.AsdfFile({'data': data, 'header': header(box, zkms)}).write_to(
             os.path.join(zdir, 'halo_info', f'halo_info_{k:03d}.asdf'))
         if cleandir:
             cd = os.path.join(cleandir, SIM, 'z0.000', 'cleaned_halo_info')
-            cdata = _arrays(np, cleaned_schema(), part['cleaned'])
+            cdata = _arrays(np, cleaned_schema(), part['cleaned'], spec.get('big_endian'))
             asdf.AsdfFile({'data': cdata, 'header': header(box, zkms, {'TimeSliceRedshiftsPrev': [0.1 * (k + 1) for k in range(NPREV)]})}
                           ).write_to(os.path.join(cd, f'cleaned_halo_info_{k:03d}.asdf'))
     if spec.get('particles'):
